@@ -16,7 +16,7 @@ CONSTANTS
   MaxNet = 4
   MaxCrashes = 0
   MaxProposals = 0
-  MaxDepth = 60
+  MaxDepth = 44
   AllowDrop = TRUE
   AllowDup = FALSE
   AllowAsync = FALSE
@@ -24,10 +24,10 @@ CONSTANTS
   PrintReplay = TRUE
   Fine = FALSE
   EagerReady = TRUE
-  QuiescentTicks = TRUE
+  QuiescentTicks = FALSE
   MaxLeaderTicks = 0
   TickNodes = {1, 2}
-  MaxDrops = 1
+  MaxDrops = 0
   MaxTransfers = 0
   TransferTargets = {}
   MaxConf = 0
